@@ -13,7 +13,9 @@ out = []
 nm = sum(1 for r in rows if r[1] == "mutant")
 ns = sum(1 for r in rows if r[1] == "seeded")
 nn = sum(1 for r in rows if r[1] == "neutral")
-out.append("Corpus: %d one-edit mutants and %d behaviour-preserving refactors written with the design (`mutants/`), plus %d changes produced by independent" % (nm, nn, ns))
+nind = sum(1 for r in rows if r[1] == "neutral" and re.match(r"n(2[1-9]|[3-9]\d)$", r[0]))
+out.append("Corpus: %d one-edit mutants and %d behaviour-preserving refactors written with the design, %d behaviour-preserving refactors written by independent" % (nm, nn - nind, nind))
+out.append("sub-agents (each with a differential demo whose checksum I re-ran before and after: `mutants/neutral-demos/`), and %d breaking changes produced by independent" % ns)
 out.append("sub-agents that were given only a property's text and a scratch worktree (`seeded/<id>/`: patch, demo that fails with / passes without the change,")
 out.append("notes, meta.json with what I ran to confirm it: the 40 baseline tests pass with every one of them). `tools/regress.py --cross` applies each change to a")
 out.append("scratch copy of /repo and runs ALL twenty checks from a frozen copy of the checker code; full matrix in `REGRESSION-cross.md`. 1 = VIOLATION, 0 = silent,")
